@@ -1,5 +1,5 @@
 SPECIFICATION TSpec
 CONSTRAINT MaxConstraint
-INVARIANTS PTypeOk PExitOk PNoPanicExit PCleanSucceeds
+INVARIANTS PTypeOk PExitOk PNoPanicExit PCleanSucceeds PNoWriteWithErrors PWroteOk
 POSTCONDITION Accepted
 CHECK_DEADLOCK FALSE
